@@ -287,6 +287,10 @@ def handwritten_loads():
     add("sysex-back-61", smf([[0, 0xF0] + W(61) + EOT]))
     add("loopstack-begin-empty", smf([[0, 0xFF, 0xE4, 0] + EOT]))
     add("division-0", smf([on + off + EOT], div=0))
+    # the division word at its other extremes: 1 tick per quarter note, the largest PPQN value, words with bit 15 set (SMPTE
+    # notation in the SMF standard: frames per second x ticks per frame, incl. zero ticks per frame and -1 x 1)
+    for dv in (0x0001, 0x7FFF, 0x8000, 0xE200, 0xE700, 0xE728, 0xFF01, 0xFFFF):
+        add("division-%04x" % dv, smf([on + off + EOT], div=dv))
     add("rawopl-1-byte", smf([[0, 0xFF, 0xE3, 1, 5] + off + EOT]))
     add("callback-empty", smf([[0, 0xFF, 0xE7, 0] + off + EOT]))
     add("loop-same-tick", smf([[0] + marker("loopStart") + [0] + marker("loopEnd") + on + off + EOT]))
